@@ -203,6 +203,21 @@ def wiring(ctx: Ctx):
         has = any(isinstance(n, ast.Call) and isinstance(n.func, ast.Attribute) and n.func.attr == "smooth" for n in ast.walk(e))
         ctx.ob("wiring.smoothed-blocks", f"{MM}::_ColumnProportionsSmoothed.{member}", "passes through smooth()" if has else "not smoothed", "smoothed" if smoothed else "not smoothed", has == smoothed,
                "base values and inserted rows are series along the columns axis; inserted columns and intersections are not")
+    # ... and a smoothed block is NaN only where its unsmoothed twin is: the NaN flags (`diff_rows_nan`, `diff_cols_nan`) a
+    # smoothed member hands to a subtotal builder are those of the same member of the unsmoothed class
+    twin = ctx.repo.cls(MM, "_ColumnProportions")
+
+    def nan_flags(e):
+        return sorted({k.arg for c in ast.walk(e) if isinstance(c, ast.Call) for k in c.keywords if k.arg in ("diff_rows_nan", "diff_cols_nan") and u(k.value) == "True"})
+
+    for member in ("_base_values", "_subtotal_rows", "_subtotal_columns", "_intersections"):
+        if ctx.repo.lookup(ci, member) is None or ctx.repo.lookup(twin, member) is None:
+            continue
+        fs = nan_flags(expand(ctx.repo, ci, member, stop=lambda mm: mm.name in ("_smoother",)))
+        ft = nan_flags(expand(ctx.repo, twin, member))
+        extra = [f for f in fs if f not in ft]
+        ctx.ob("wiring.nan-flags", f"{MM}::_ColumnProportionsSmoothed.{member}", fs or "no NaN flag", ft or "no NaN flag (as in _ColumnProportions)", not extra,
+               "a difference row has a column proportion (the difference of its terms' proportions): smoothed or returned unchanged, it is not NaN")
     # ... and nothing else is smoothed
     allowed = {(MM, "_ColumnIndexSmoothed"), (MM, "_ColumnProportionsSmoothed"), (MM, "_MeansSmoothed"), (MM, "_ScaleMeanSmoothed"), (SM, "_MeansSmoothed")}
     sites = {}
